@@ -6,9 +6,9 @@ CONSTANTS
   PingLens = {0, 125}
   CloseLens = {0, 2}
   MaxReads = 99
-  MaxWrites = 1
+  MaxWrites = 0
   WriteLens = {0, 125, 126, 65535, 65536}
-  MaxCloses = 1
+  MaxCloses = 0
   Defects = {}
 INVARIANT Conforms
 INVARIANT TypeOK
